@@ -174,7 +174,14 @@ def r07_2(ctx, g):
             for c in ast.walk(l):
                 if isinstance(c, ast.Call) and isinstance(c.func, ast.Attribute) and c.func.attr == "startswith":
                     lits.append(const_value(c.args[0]))
-        okc = lits[:2] == ["S", "L"] and len({norm(l.iter) for l in passes[:2]}) == 1
+        okc = lits[:2] == ["S", "L"] and len(lits) == 2 and len(passes) >= 2 and len({norm(l.iter) for l in passes[:2]}) == 1
+        # each pass writes directly (no buffering across files) and tests only its own letter
+        for l, letter in zip(passes[:2], "SL"):
+            tests = [const_value(c.args[0]) for c in ast.walk(l) if isinstance(c, ast.Call) and isinstance(c.func, ast.Attribute) and c.func.attr == "startswith"]
+            writes = [c for c in ast.walk(l) if isinstance(c, ast.Call) and isinstance(c.func, ast.Attribute) and c.func.attr in ("write", "writelines")]
+            okc = okc and tests == [letter] and len(writes) == 1 and writes[0].func.attr == "write"
+        buffered = [c for c in ast.walk(w) if isinstance(c, ast.Call) and isinstance(c.func, ast.Attribute) and c.func.attr in ("writelines", "extend")]
+        okc = okc and not buffered
     ctx.check(okc, "R07.2", run.where(), "the complete file copies the S lines of every per-chromosome file first and the L lines afterwards, each pass filtering on its own record letter", key_of(run, "concat-S-then-L"))
 
 
